@@ -16,8 +16,8 @@ import (
 var SlowLog func(script string, d time.Duration, verdict string)
 
 type Solver struct {
-	bin  string
-	args []string
+	bin     string
+	args    []string
 	cmd     *exec.Cmd
 	in      io.WriteCloser
 	out     *bufio.Reader
@@ -25,11 +25,11 @@ type Solver struct {
 	Time    time.Duration // time spent in check-sat
 	timeout int           // ms
 	// script of the current context (for standalone re-checking)
-	script []string
-	marks  []int
-	Errors []string
-	name   string
-	live   bool // the process context mirrors the script (incremental mode)
+	script        []string
+	marks         []int
+	Errors        []string
+	name          string
+	live          bool // the process context mirrors the script (incremental mode)
 	noIncremental bool
 }
 
